@@ -404,14 +404,19 @@ func scenario(c *run.Ctx, idx int) {
 		ws2[0] = 1
 		ws2[1] = 100
 		old := ms.quorum()
+		oldWeights := ms.weights
 		ms.weights = ws2
 		data, _ := json.Marshal(struct {
 			Signers types.Signers `json:"signers"`
 		}{toSigners(ms)})
 		tx := B.Reimbursed(params.ModifySignersTx, old, ms.addr, &ms.addr, pp.addr, []fx.Key{pp.own}, big.NewInt(0), data, 2000000, fx.GasPrice, exp())
 		if b, eff := step([]cand{{tx: tx, kind: "reweigh-paid-by-somebody-else", expect: true, sets: toSigners(ms), setsFor: ms.addr}}, "weights only, gas reimbursed"); b == nil || len(eff) != 1 {
-			c.Note("reimbursed reweigh not packaged")
-			return
+			// (completeness is not this property's subject: the scenario goes on with the weights as they were)
+			c.Stat("reimbursed_reweigh_not_packaged", 1)
+			if b == nil {
+				return
+			}
+			ms.weights = oldWeights
 		}
 	}
 	accts := []*acct{plain, ms, tmp}
